@@ -42,33 +42,46 @@ from harness.engine_suites import COMPLETE, CONTINUABLE, HALT, Runner, Trace, pa
 
 # Signatures (without the `synth:<prop>:` prefix) that fire on the UNCHANGED tree, were adjudicated as real engine defects
 # and wait for a decision: the oracle stays, the REPORTING is off unless VERIF_SYNTH_PENDING=1.  fnmatch patterns.
-PENDING: list[str] = [
-    # S1  CompleteStage(parent) after a failed task / before-stage counts never-started PRE-DECLARED after-stages as "in flight"
-    #     (complete_stage/handler.py, `in_flight_children`): consumed, the parent stays RUNNING, in plain in-order delivery
-    "wedged:failed-parent-waits-for-unstarted-after-stage",
-    "stuck-until-wait-budget:failed-parent-waits-for-unstarted-after-stage",
-    # S2  a before-stage ending FAILED_CONTINUE sends CompleteStage(parent) instead of ContinueParentStage (complete_stage/handler.py,
-    #     "FAILED_CONTINUE propagation to parent"): the parent's tasks are never started, in plain in-order delivery
-    "wedged:before-stage-failed-continue-parent-never-continued",
-    "stuck-until-wait-budget:before-stage-failed-continue-parent-never-continued",
-    # S3  CompleteWorkflow looks at top-level statuses only: a SUSPENDED child under a RUNNING parent is not "explicitly waiting" to
-    #     it, the poll chain spends the wait budget and fails the workflow (complete_workflow.py, _determine_final_status)
-    "waiting-workflow-failed-by-wait-budget:child-stage-waiting:by-CW",
-    # S3b the same for ContinueParentStage's re-poll chain: one before/after-stage has finished, its sibling is SUSPENDED; the
-    #     chain spends the wait budget and marks the parent TERMINAL (continue_parent_stage.py, `if not all_complete`)
-    "waiting-workflow-failed-by-wait-budget:child-stage-waiting:by-CP",
-    # S4  the recovery sweep pushes StartStage for every NOT_STARTED synthetic child (recovery.py, _can_start: "no dependencies - can
-    #     always start"): children run before / without their parent.  Any hit on a trace in which that happened.
-    "*[:@]before-stage-started-while-parent-not-running",
-    "*[:@]after-stage-started-before-parent-work-finished",
-    # S5  (report (b)) the recovery sweep pushes StartTask for a RUNNING parent's first task while its before-stage still runs
-    #     (recovery.py, _recover_workflow, `elif not_started_tasks and stage.start_time is not None`)
-    "*[:@]parent-task-started-before-before-stage-finished",
-    # S6  a cancel fans CancelStage out to top-level stages only (workflow_control.py) and CancelStage does not touch children:
-    #     a SUSPENDED child of a canceled workflow stays SUSPENDED for ever
-    "unfinished-stage-ends:before:SUSPENDED>SUSPENDED",
-    "unfinished-stage-ends:after:SUSPENDED>SUSPENDED",
-]
+PENDING: list[str] = []
+# History: the patterns below fired on /repo 2858e20 and were gated here while they waited for a decision.  All of them were
+# repaired by `fix:` commits (F44-F51, DESIGN.md section 5.1) and are reported again like every other signature; their
+# witnesses run first on every check (replays/<prop>/F4x-synth-*.json).
+#       # S1  CompleteStage(parent) after a failed task / before-stage counts never-started PRE-DECLARED after-stages as "in flight"
+#       #     (complete_stage/handler.py, `in_flight_children`): consumed, the parent stays RUNNING, in plain in-order delivery
+#       "wedged:failed-parent-waits-for-unstarted-after-stage",
+#       "stuck-until-wait-budget:failed-parent-waits-for-unstarted-after-stage",
+#       "*:ref:failed-parent-waits-for-unstarted-after-stage",       # C01: compared against a reference run that contains S1
+#       # S2  a before-stage ending FAILED_CONTINUE sends CompleteStage(parent) instead of ContinueParentStage (complete_stage/handler.py,
+#       #     "FAILED_CONTINUE propagation to parent"): the parent's tasks are never started, in plain in-order delivery
+#       "wedged:before-stage-failed-continue-parent-never-continued",
+#       "stuck-until-wait-budget:before-stage-failed-continue-parent-never-continued",
+#       "*:ref:before-stage-failed-continue-parent-never-continued",  # C01: compared against a reference run that contains S2
+#       # S3  CompleteWorkflow looks at top-level statuses only: a SUSPENDED child under a RUNNING parent is not "explicitly waiting" to
+#       #     it, the poll chain spends the wait budget and fails the workflow (complete_workflow.py, _determine_final_status)
+#       "waiting-workflow-failed-by-wait-budget:child-stage-waiting:by-CW",
+#       # S3b the same for ContinueParentStage's re-poll chain: one before/after-stage has finished, its sibling is SUSPENDED; the
+#       #     chain spends the wait budget and marks the parent TERMINAL (continue_parent_stage.py, `if not all_complete`)
+#       "waiting-workflow-failed-by-wait-budget:child-stage-waiting:by-CP",
+#       # S4  the recovery sweep pushes StartStage for every NOT_STARTED synthetic child (recovery.py, _can_start: "no dependencies - can
+#       #     always start"): children run before / without their parent.  Any hit on a trace in which that happened.
+#       "*[:@]before-stage-started-while-parent-not-running",
+#       "*[:@]after-stage-started-before-parent-work-finished",
+#       "*[:@]child-started-by-recovery-sweep",       # the same StartStage, arriving when the parent happened to be ready for the child
+#       # S5  (report (b)) the recovery sweep pushes StartTask for a RUNNING parent's first task while its before-stage still runs
+#       #     (recovery.py, _recover_workflow, `elif not_started_tasks and stage.start_time is not None`)
+#       "*[:@]parent-task-started-before-before-stage-finished",
+#       # S6  a cancel fans CancelStage out to top-level stages only (workflow_control.py) and CancelStage does not touch children:
+#       #     a SUSPENDED child of a canceled workflow stays SUSPENDED for ever
+#       "unfinished-stage-ends:before:SUSPENDED>SUSPENDED",
+#       "unfinished-stage-ends:after:SUSPENDED>SUSPENDED",
+#       # S8  ContinueParentStage treats a child that the accepted cancel turned CANCELED as a FAILED child and marks the parent TERMINAL
+#       #     (continue_parent_stage.py, `any_failed`): when it overtakes the parent's CancelStage the parent and the workflow end
+#       #     TERMINAL instead of CANCELED
+#       "unfinished-stage-ends:parent*:RUNNING>TERMINAL:by-CP",
+#       "cancel-final:TERMINAL:CP-made-a-stage-TERMINAL-after-the-cancel",
+#       # S9  StageExecution.determine_status without tasks / before-stages only looks for TERMINAL among the after-stages: a task-less
+#       #     parent whose after-stages were CANCELED completes SUCCEEDED (models/stage/stage.py, the `not core_statuses` branch)
+#       "unfinished-stage-ends:parent:RUNNING>SUCCEEDED:by-CS:taskless-parent-with-canceled-after-stage",
 
 
 # --------------------------------------------------------------------------------------
@@ -212,8 +225,16 @@ def order_violations(t: Trace, lay: Lay) -> list[tuple[str, str]]:
     st = ["NOT_STARTED"] * lay.total
     ts = {(i, j): "NOT_STARTED" for i in range(lay.total) for j in range(len(lay.scripts(i)))}
     out = []
+    # StartStage rows for children that a recovery sweep pushed (S4): row ids that appear in the queue during a `w` op
+    swept: set[str] = set()
+    for k, o in enumerate(t.ops):
+        if o == "w":
+            before = {x.split(":")[0] for x in parse_line(t.lines[k])["queue"]}
+            for x in parse_line(t.lines[k + 1])["queue"]:
+                rid, code = x.split(":")[0], x.split(":")[1].split("/")[0]
+                if rid not in before and code.startswith("SS.") and code_stage(code) is not None and code_stage(code) >= lay.n:
+                    swept.add(rid)
     for k, op, msg, (ent, old, new) in es.audit_by_op(t):
-        by = (msg or op).split(".")[0]
         if ent[0] == "S" and ent[1:].isdigit():
             i = int(ent[1:])
             if old == "NOT_STARTED" and new == "RUNNING" and i >= lay.n:
@@ -226,6 +247,11 @@ def order_violations(t: Trace, lay: Lay) -> list[tuple[str, str]]:
                         out.append(("after-stage-started-before-parent-work-finished",
                                     f"after-stage {i} of stage {p} was started by {msg or op} while the parent was {st[p]} with tasks "
                                     f"{[ts[(p, j)] for j in range(len(lay.scripts(p)))]} and before-stages {[st[b] for b in lay.children_of(p, 'B')]}"))
+                m_ = re.match(r"[dxkn](\d+)", op)
+                if m_ and m_.group(1) in swept and not (out and out[-1][1].startswith(("before-stage " + str(i), "after-stage " + str(i)))):
+                    out.append(("child-started-by-recovery-sweep",
+                                f"{lay.role(i)}-stage {i} of stage {p} was started by a StartStage the recovery sweep had pushed (row {m_.group(1)}), "
+                                f"not by its parent (parent {st[p]} at that moment)"))
             st[i] = new
         elif ent[0] == "T" and "?" not in ent:
             i, j = (int(x) for x in ent[1:].split("."))
@@ -235,7 +261,6 @@ def order_violations(t: Trace, lay: Lay) -> list[tuple[str, str]]:
                     out.append(("parent-task-started-before-before-stage-finished",
                                 f"task {i}.{j} of the parent was started by {msg or op} while its before-stage(s) {unfinished} were {[st[b] for b in unfinished]}"))
             ts[(i, j)] = new
-        del by
     return out
 
 
@@ -303,8 +328,8 @@ def smon_c05(t: Trace) -> list[tuple[str, str]]:
     if ex is not None and t.respecting:
         pre = parse_line(t.lines[ex])
         if pre["wf"] not in COMPLETE and es.waiting_explicitly(pre) and not pre["canceled"]:
-            who = sorted({("child" if i >= lay.n else "top-level") for i, x in enumerate(pre["stages"]) if x["status"] in ("SUSPENDED", "PAUSED")})
-            hits.append((f"waiting-workflow-failed-by-wait-budget:{'+'.join(who)}-stage-waiting:by-{t.op_msg[ex].split('.')[0]}",
+            who = "child" if any(x["status"] in ("SUSPENDED", "PAUSED") for x in pre["stages"][lay.n:]) else "top-level"
+            hits.append((f"waiting-workflow-failed-by-wait-budget:{who}-stage-waiting:by-{t.op_msg[ex].split('.')[0]}",
                          f"stage(s) {[i for i, x in enumerate(pre['stages']) if x['status'] in ('SUSPENDED', 'PAUSED')]} were explicitly waiting "
                          f"(SUSPENDED/PAUSED) but {t.op_msg[ex]} exhausted its re-poll budget"))
         if pre["wf"] not in COMPLETE and not es.waiting_explicitly(pre):
@@ -354,7 +379,7 @@ def smon_c17(t: Trace) -> list[tuple[str, str]]:
     hits = []
     accepted = None
     for k in range(1, len(t.lines)):
-        if '=' in t.lines[k] and t.lines[k - 1].split(";")[0].endswith(",0") and t.lines[k].split(";")[0].endswith(",1"):
+        if t.lines[k - 1].split(";")[0].endswith(",0") and t.lines[k].split(";")[0].endswith(",1"):     # W=<status>,<is_canceled>
             accepted = k
             break
     if accepted is None:
@@ -369,6 +394,14 @@ def smon_c17(t: Trace) -> list[tuple[str, str]]:
     if fin["wf"] not in COMPLETE:
         hits.append((f"cancel-not-final:{fin['wf']}", f"after an accepted cancel the workflow stays {fin['wf']}"))
     flags = s_finished_flags(lay, at)
+
+    def set_by(i: int, status: str) -> str:
+        """kind of the message whose delivery, after the acceptance, wrote `status` into stage i (CP, CS, XS, ...)"""
+        for k, op, msg, (ent, old, new) in es.audit_by_op(t):
+            if k + 1 > accepted and ent == f"S{i}" and new == status:
+                return (msg or op).split(".")[0]
+        return "?"
+
     for i, (a, b) in enumerate(zip(at["stages"], fin["stages"])):
         if flags[i]:
             continue
@@ -382,22 +415,55 @@ def smon_c17(t: Trace) -> list[tuple[str, str]]:
         if b["status"] != "CANCELED":
             kind = role
             if role == "parent":
-                ks = [at["stages"][c]["status"] for c in lay.children_of(i)]
                 own_done = bool(a["tasks"]) and all(x in COMPLETE for x in a["tasks"])
                 kind = "parent-awaiting-after-stage" if (own_done and a["status"] == "RUNNING") else "parent"
-                del ks
             elif role == "plain":
                 kind = "taskless" if not a["tasks"] else "with-tasks"
-            hits.append((f"unfinished-stage-ends:{kind}:{a['status']}>{b['status']}",
-                         f"stage {i} ({role}) was {a['status']} with tasks {a['tasks']} when the cancel was accepted and ends {b['status']}"))
+            sig = f"unfinished-stage-ends:{kind}:{a['status']}>{b['status']}"
+            if b["status"] != a["status"]:
+                sig += f":by-{set_by(i, b['status'])}"
+                after_fin = [fin["stages"][c]["status"] for c in lay.children_of(i, "A")] if i < lay.n else []
+                if role == "parent" and b["status"] == "SUCCEEDED" and not a["tasks"] and not lay.children_of(i, "B") and "CANCELED" in after_fin:
+                    sig += ":taskless-parent-with-canceled-after-stage"
+            hits.append((sig, f"stage {i} ({role}) was {a['status']} with tasks {a['tasks']} when the cancel was accepted and ends {b['status']}"))
             break
     failed = any(a["status"] == "TERMINAL" or "TERMINAL" in a["tasks"] or any(
         x.split(":")[1].startswith(f"CT.{i}.") and x.split(":")[1].split("/")[0].endswith("TERMINAL") for x in at["queue"])
         for i, a in enumerate(at["stages"]))
     unfinished_top = not all(flags[:lay.n])
     if fin["wf"] in COMPLETE and fin["wf"] != "CANCELED" and unfinished_top and not (failed and fin["wf"] == "TERMINAL"):
-        hits.append((f"cancel-final:{fin['wf']}", f"canceled workflow ends {fin['wf']} although top-level stages were unfinished at cancel time"))
+        sig = f"cancel-final:{fin['wf']}"
+        late = sorted({(msg or op).split(".")[0] for k, op, msg, (ent, old, new) in es.audit_by_op(t)
+                       if k + 1 > accepted and ent[0] == "S" and ent[1:].isdigit() and int(ent[1:]) < lay.n and new == "TERMINAL"})
+        if late:
+            sig += f":{'+'.join(late)}-made-a-stage-TERMINAL-after-the-cancel"
+        hits.append((sig, f"canceled workflow ends {fin['wf']} although top-level stages were unfinished at cancel time"))
     return hits
+
+
+def latent_causes(t: Trace, lay: Lay) -> list[str]:
+    """S1 / S2 leave a parent that never finishes by itself; next to another branch the workflow still ends (the other branch's
+    CompleteWorkflow chain cancels the stuck parent), so the run looks healthy.  Named here so that a comparison AGAINST such a
+    run (C01's reference) says what it was compared with."""
+    fin = t.final()
+    if fin["canceled"]:
+        return []
+    started = {ent for ent, old, new in t.audit if ent[0] == "T" and new == "RUNNING"}
+    out = []
+    for p in range(lay.n):
+        if not lay.children_of(p):
+            continue
+        a = fin["stages"][p]
+        if a["status"] not in ("RUNNING", "CANCELED"):
+            continue
+        b_st = [fin["stages"][b]["status"] for b in lay.children_of(p, "B")]
+        a_st = [fin["stages"][c]["status"] for c in lay.children_of(p, "A")]
+        own_started = any(f"T{p}.{j}" in started for j in range(len(a["tasks"])))
+        if "FAILED_CONTINUE" in b_st and all(x in COMPLETE for x in b_st) and a["tasks"] and not own_started:
+            out.append("before-stage-failed-continue-parent-never-continued")
+        if any(x in ("TERMINAL", "STOPPED") for x in list(a["tasks"]) + b_st) and a_st and all(x == "NOT_STARTED" for x in a_st):
+            out.append("failed-parent-waits-for-unstarted-after-stage")
+    return out
 
 
 def s_outcome(t: Trace) -> dict:
@@ -407,6 +473,7 @@ def s_outcome(t: Trace) -> dict:
         execs[f"{s_}.{tt}"] += 1
     return {"wf": fin["wf"], "stages": [s_["status"] for s_ in fin["stages"]], "tasks": [s_["tasks"] for s_ in fin["stages"]],
             "execs": dict(execs), "quiesced": t.quiesced, "exhausted": s_exhausted(t) is not None,
+            "latent": latent_causes(t, Lay(t.spec)),
             "healthy": t.quiesced and fin["wf"] in COMPLETE and s_exhausted(t) is None}
 
 
@@ -414,8 +481,8 @@ def smon_c01(t: Trace) -> list[tuple[str, str]]:
     """crash anywhere + restart + sweep + drain == uninterrupted in-order run: workflow / stage statuses (children included),
     per-task execution counts + at most the in-flight step repeated, and not stuck"""
     ref = t.meta.get("ref")
-    if not ref or not ref.get("healthy"):
-        return []
+    if not ref or not ref.get("healthy") or not any(o[0] == "k" for o in t.ops):
+        return []      # the property is about a kill + restart: a trace without a kill is not its subject
     lay = Lay(t.spec)
     hits = []
     got = s_outcome(t)
@@ -427,6 +494,10 @@ def smon_c01(t: Trace) -> list[tuple[str, str]]:
     ov = order_violations(t, lay)
     if ov:
         where = ov[0][0]
+    elif ref.get("latent"):
+        # the uninterrupted run itself contains a parent stuck by S1 / S2 (hidden by another branch ending the workflow): the
+        # recovery sweep sometimes un-sticks it, so the crash run legitimately differs from that reference
+        where = "ref:" + ref["latent"][0]
     reordered = bool(t.meta.get("hold")) or t.meta.get("crashes", 1) > 1
     halting = any(o[0] in "TX" for _, sc in lay.all_scripts() for o in sc)
     race_dependent = reordered and halting
@@ -530,8 +601,6 @@ def produce_sched(prop: str, rng: random.Random, wd: Path) -> dict:
         step += 1
         if susp and rng.random() < 0.06:
             r.apply(("g", rng.choice(susp), rng.random() < 0.6))
-    else:
-        pass
     if susp and not r.pending() and rng.random() < 0.7:
         # a suspended stage at quiescence: send the signal(s) it waits for and drain again
         for _ in range(3):
@@ -618,7 +687,9 @@ def _worker(args) -> dict:
         for j in range(count):
             try:
                 if prop == "C01" or (prop == "C05" and j % 4 == 3):
-                    out.extend(produce_crash(rng, wd, tier, npoints=5 if prop == "C01" else 3))
+                    # every kill point per workflow only in C01's thorough tier; C05 samples 3 (quick) / 8 (thorough)
+                    out.extend(produce_crash(rng, wd, tier if prop == "C01" else "quick",
+                                             npoints=5 if prop == "C01" else (8 if tier == "thorough" else 3)))
                 else:
                     out.append(produce_sched(prop, rng, wd))
             except Exception:
@@ -772,14 +843,14 @@ def _spec_variants(spec: Spec):
         for i in range(lay.n + c + 1, lay.total):
             m[i] = i - 1
         yield sp, m
-    # drop a top-level stage nothing depends on (with its children)
-    for i in range(lay.n - 1, -1, -1):
-        if lay.n == 1 or any(i in st.reqs for st in spec.stages):
+    # drop a top-level stage (with its children); stages that depended on it lose that upstream
+    for i in sorted(range(lay.n), key=lambda j: (any(j in st.reqs for st in spec.stages), -j)):
+        if lay.n == 1:
             continue
         sp = copy.deepcopy(spec)
         del sp.stages[i]
         for st in sp.stages:
-            st.reqs = [u - 1 if u > i else u for u in st.reqs]
+            st.reqs = [u - 1 if u > i else u for u in st.reqs if u != i]
         m = {}
         gone = {i} | set(lay.children_of(i))
         new_top = [j for j in range(lay.n) if j != i]
@@ -787,7 +858,7 @@ def _spec_variants(spec: Spec):
         for j in range(lay.total):
             m[j] = None if j in gone else (new_top + new_kids).index(j)
         yield sp, m
-    # drop a dependency-free prefix stage of a chain: not attempted (changes readiness); simplify scripts instead
+    # simpler scripts / fewer tasks / no continue-on-failure
     for i in range(lay.n):
         for j, sc in enumerate(spec.stages[i].tasks):
             if sc != ["S"]:
@@ -809,7 +880,7 @@ def _spec_variants(spec: Spec):
             yield sp, ident
 
 
-def s_shrink(t: Trace, mon, sig: str, wd: Path, budget: int = 140) -> dict | None:
+def s_shrink(t: Trace, mon, sig: str, wd: Path, budget: int = 200) -> dict | None:
     """returns {"spec", "ops" (concrete, replayable), "essential" (how many leading ops are the schedule; the rest is the
     in-order drain), "meta"} for a smaller input with the same signature, or None when not even the symbolic re-run of the
     original reproduces it (then the original op list is reported as it is)"""
@@ -853,37 +924,35 @@ def s_shrink(t: Trace, mon, sig: str, wd: Path, budget: int = 140) -> dict | Non
                 n = min(len(ops), n * 2)
         return ops, best
 
-    # 1. the tail first: most schedules only need a short prefix before the in-order drain
-    lo = 0
-    for cut in range(len(ops)):
-        if tries[0] >= budget // 2:
-            break
-        if ops[cut][0] == "d" and cut + 1 < len(ops) and ops[cut + 1][0] == "d" and cut % 2:
-            continue
+    def simplify_spec(spec, ops, meta, best, cap):
+        progress = True
+        while progress and tries[0] < cap:
+            progress = False
+            for sp, m in _spec_variants(spec):
+                if tries[0] >= cap:
+                    break
+                new_meta = dict(meta)
+                if meta.get("crash_msg"):
+                    new_meta["crash_msg"] = _remap_code(meta["crash_msg"], m) or meta["crash_msg"]
+                got = attempt(sp, _remap_ops(ops, m), new_meta)
+                if got is not None:
+                    spec, ops, meta, best, progress = sp, _remap_ops(ops, m), new_meta, got, True
+                    break
+        return spec, ops, meta, best
+
+    # 1. the tail first: most schedules only need a short prefix before the in-order drain; candidate cut points are the
+    #    positions right after an injected / non-plain op and a coarse grid in between
+    cuts = sorted({0} | {k + 1 for k, o in enumerate(ops) if o[0] != "d"} | set(range(0, len(ops), 5)))
+    for cut in cuts[:30]:
         got = attempt(spec, ops[:cut], meta)
         if got is not None:
             ops, best = ops[:cut], got
             break
-        lo = cut
-    del lo
+    # 2. the workflow, 3. the schedule, 4. the workflow once more
+    spec, ops, meta, best = simplify_spec(spec, ops, meta, best, budget * 2 // 3)
     ops, best = ddmin(spec, ops, meta, best)
-    # 2. the workflow
-    progress = True
-    while progress and tries[0] < budget:
-        progress = False
-        for sp, m in _spec_variants(spec):
-            if tries[0] >= budget:
-                break
-            new_meta = dict(meta)
-            if meta.get("crash_msg"):
-                new_meta["crash_msg"] = _remap_code(meta["crash_msg"], m) or meta["crash_msg"]
-            got = attempt(sp, _remap_ops(ops, m), new_meta)
-            if got is not None:
-                spec, ops, meta, best, progress = sp, _remap_ops(ops, m), new_meta, got, True
-                break
-    ops, best = ddmin(spec, ops, meta, best)
+    spec, ops, meta, best = simplify_spec(spec, ops, meta, best, budget + 20)
     tt, npre = best
-    # trailing symbolic deliveries that are exactly what the in-order drain would do anyway belong to the drain
     return {"spec": spec, "ops": tt.ops, "essential": npre, "meta": {k: v for k, v in tt.meta.items()}, "tries": tries[0]}
 
 
@@ -900,7 +969,7 @@ def run_for(ctx, prop: str) -> None:
 
     t0 = time.time()
     logging.disable(logging.CRITICAL)
-    total = {"C05": ctx.n(176, 1600), "C17": ctx.n(176, 1600), "C01": ctx.n(32, 160)}[prop]
+    total = {"C05": ctx.n(480, 1600), "C17": ctx.n(480, 3200), "C01": ctx.n(64, 64)}[prop]
     nproc = min(16, max(1, os.cpu_count() or 1))
     per = max(1, total // nproc)
     jobs = [(prop, f"{ctx.seed}:{i}", per, ctx.tier) for i in range(nproc)]
@@ -1027,7 +1096,7 @@ def _cli() -> None:
     logging.disable(logging.CRITICAL)
     if sys.argv[1] == "sweep":
         prop, seed = sys.argv[2], sys.argv[3]
-        total = int(sys.argv[4]) if len(sys.argv) > 4 else {"C05": 176, "C17": 176, "C01": 32}[prop]
+        total = int(sys.argv[4]) if len(sys.argv) > 4 else {"C05": 480, "C17": 480, "C01": 64}[prop]
         nproc = min(16, os.cpu_count() or 1)
         jobs = [(prop, f"{seed}:{i}", max(1, total // nproc), "quick") for i in range(nproc)]
         cnt: Counter = Counter()
